@@ -63,7 +63,10 @@ def build(reg):
             if src.startswith("itertools.combinations(") and src.endswith(",2)"):
                 return Val(LP, PAIRS(ex.expr(n.args[0], st, pc).z))
             if is_call(n, "list", 1) and ast.unparse(n.args[0]).startswith("itertools.combinations("): return ex.expr(n.args[0], st, pc)
-            if src == "itertools.count(0)": return Val(INT, z3.IntVal(0))
+            if src.startswith("itertools.count(") and len(n.args) <= 1 and not n.keywords:
+                # a running counter from whatever start the code chooses (ghost ID0): the property asks for ids unique per clique, not for a particular first id
+                start = ex.expr(n.args[0], st, pc) if n.args else Val(INT, z3.IntVal(0))
+                if isinstance(start.t, IntT): st.env["ID0"] = start; return Val(INT, start.z)
             if src == "next(clique_ID)":
                 cur = st.env["clique_ID"]; st.env["clique_ID"] = Val(INT, cur.z + 1); return cur
             if isinstance(n.func, ast.Attribute) and n.func.attr == "has_edge":
@@ -116,7 +119,7 @@ def build(reg):
          requires={"sym": SYM.format(g="G"), "loop_free": "forall_elem(a, Int, not ((a, a) in G.adj))", "limit": "max_size == 0 or max_size >= 2"},
          ensures={"edges_unchanged": "result.adj == old(G).adj",
                   "all_edges_claimed": f"forall_elem(a, Int, forall_elem(b, Int, implies((a, b) in old(G).adj, {CLAIMED})))",
-                  "label_is_size_members_id": "forall(m, 0, len(cover), forall_elem(a, Int, forall_elem(b, Int, implies(inpair(cover[m], a, b), result.lab[(a, b)] == label(csize(cover[m]), cover[m], m)))))",
+                  "label_is_size_members_id": "forall(m, 0, len(cover), forall_elem(a, Int, forall_elem(b, Int, implies(inpair(cover[m], a, b), result.lab[(a, b)] == label(csize(cover[m]), cover[m], ID0 + m)))))",
                   "greedy_maximal": INV0["greedy_maximal"].replace("IT", "len(cliques)"),
                   "cover_disjoint": INV0["cover_disjoint"], "cover_within_limit": INV0["cover_within_limit"],
                   "every_edge_labelled": "forall_elem(a, Int, forall_elem(b, Int, implies((a, b) in result.adj, (a, b) in result.lab_has)))"},
@@ -128,15 +131,15 @@ def build(reg):
                     head_snap={"cover_at_head": "cover", "g_at_head": "g"}),
                 1: dict(inv={"skip_iff": "skip == exists(q, 0, IT, not ((pairs(c)[q][0], pairs(c)[q][1]) in g.adj))", "frame": "g == g_in and cover == cover_in and G == old(G)"},
                         snap={"g_in": "g", "cover_in": "cover"}),
-                2: dict(inv={"adj": "G.adj == old(G).adj", "ids": "clique_ID == IT",
+                2: dict(inv={"adj": "G.adj == old(G).adj", "ids": "clique_ID == ID0 + IT",
                              "claimed_all": f"forall_elem(a, Int, forall_elem(b, Int, implies((a, b) in old(G).adj, {CLAIMED})))",
                              "labelled": "forall(m, 0, IT, forall_elem(a, Int, forall_elem(b, Int, implies(inpair(cover[m], a, b), (a, b) in G.lab_has))))",
-                             "label_of": "forall(m, 0, IT, forall_elem(a, Int, forall_elem(b, Int, implies(inpair(cover[m], a, b), G.lab[(a, b)] == label(csize(cover[m]), cover[m], m)))))",
+                             "label_of": "forall(m, 0, IT, forall_elem(a, Int, forall_elem(b, Int, implies(inpair(cover[m], a, b), G.lab[(a, b)] == label(csize(cover[m]), cover[m], ID0 + m)))))",
                              "cover": "cover == cover_fin"}, snap={"cover_fin": "cover"}),
                 3: dict(inv={"adj": "G.adj == old(G).adj", "cover": "cover == cover_fin and clique_ID == clique_ID_in",
                              "earlier": "forall(m, 0, IT_outer, forall_elem(a, Int, forall_elem(b, Int, implies(inpair(cover[m], a, b), (a, b) in G.lab_has))))",
                              "this": "forall(q, 0, IT, (pairs(c)[q] in G.lab_has) and ((pairs(c)[q][1], pairs(c)[q][0]) in G.lab_has))",
                              "this_label": "forall(q, 0, IT, G.lab[pairs(c)[q]] == label(csize(c), c, ID) and G.lab[(pairs(c)[q][1], pairs(c)[q][0])] == label(csize(c), c, ID))",
-                             "earlier_label": "forall(m, 0, IT_outer, forall_elem(a, Int, forall_elem(b, Int, implies(inpair(cover[m], a, b), G.lab[(a, b)] == label(csize(cover[m]), cover[m], m)))))", "cur": "c == cover[IT_outer] and ID == IT_outer"},
+                             "earlier_label": "forall(m, 0, IT_outer, forall_elem(a, Int, forall_elem(b, Int, implies(inpair(cover[m], a, b), G.lab[(a, b)] == label(csize(cover[m]), cover[m], ID0 + m)))))", "cur": "c == cover[IT_outer] and ID == ID0 + IT_outer"},
                         snap={"clique_ID_in": "clique_ID", "IT_outer": "IT"})})
     return ["MPCC"]
